@@ -347,10 +347,26 @@ func pairingViaCallers(p *an.Prog, addFn *ssa.Function, key string) (string, boo
 	}
 	n := 0
 	adds := 0
+	// only the functions that can perform an Add or a Done are looked into; everything else is opaque
+	relevant := map[*ssa.Function]bool{}
+	touches := func(g *ssa.Function) bool {
+		if v, ok := relevant[g]; ok {
+			return v
+		}
+		relevant[g] = false
+		for h := range p.Reach([]*ssa.Function{g}, func(e an.CallEdge) bool {
+			return e.Kind != an.EdgeGo && an.Outer(e.Callee).Pkg == an.Outer(addFn).Pkg
+		}) {
+			if len(an.CallsIn(h, fnWgAdd, fnWgDone)) > 0 {
+				relevant[g] = true
+			}
+		}
+		return relevant[g]
+	}
 	for caller := range callers {
 		ex := &an.Explorer{P: p, NoReturn: noReturn, MaxDepth: 3, MaxVisits: 2,
 			Inline: func(g *ssa.Function) bool {
-				return g != caller && (g == addFn || an.Outer(g).Pkg == an.Outer(addFn).Pkg && an.Outer(g).Pkg == an.Outer(caller).Pkg)
+				return g != caller && (g == addFn || an.Outer(g).Pkg == an.Outer(addFn).Pkg && an.Outer(g).Pkg == an.Outer(caller).Pkg && touches(g))
 			}}
 		ex.Effect = func(in ssa.Instruction, st *an.State) string {
 			ci, ok := in.(ssa.CallInstruction)
